@@ -231,6 +231,59 @@ def run(tier, seed, t0):
     )
 
 
+VALUES = {"mutation_rate": ["1e-3"], "recombination_rate": ["1e-8"], "epsilon": ["1e-6", "0"],
+          "min_branch_length": ["1e-4", "0"], "rescaling_intervals": ["3", "0"],
+          "max_iterations": ["4", "0"], "population_size": ["100"], "num_threads": ["1", "0"],
+          "probability_space": ["linear"], "progress": [None]}
+
+
+def _replay_date(payload, cli, inp, out):
+    """The real tsdate_main (real argparse + run_date) on real command lines for the options of
+    the counterexample, each also as an explicit 0; tsdate.date is replaced by a recorder and the
+    keyword arguments it receives are compared with what the command line said."""
+    kw = payload["case_kw"]
+    method = kw["method"]
+    sp = _subparser(cli, "date")
+    flag = {a.dest: a.option_strings[-1] for a in sp._actions if a.option_strings}
+    typ = {a.dest: a.type for a in sp._actions}
+    vg = method == "variational_gamma"
+    irrelevant = {"population_size", "num_threads", "probability_space"} if vg else \
+        {"rescaling_intervals", "max_iterations"}
+    focus = kw.get("focus") or [d for d in DATE_DESTS if d not in irrelevant
+                                and d != "deprecated_population_size"]
+    bad = []
+    for dest in focus:
+        if dest in irrelevant or dest not in VALUES or dest == "mutation_rate":
+            continue
+        if dest == "epsilon" and vg:
+            continue
+        for text in VALUES[dest]:
+            argv = ["date", inp, out, "--method", method, "--mutation_rate", "1e-3"]
+            if not vg:
+                argv += [flag["population_size"], "100"] if dest != "population_size" else []
+            argv += [flag[dest]] + ([text] if text is not None else [])
+            rec = []
+
+            class Out:
+                def dump(self, path):
+                    pass
+            saved = cli.tsdate.date
+            cli.tsdate.date = lambda ts, **k: (rec.append(k), Out())[1]
+            try:
+                try:
+                    cli.tsdate_main(argv)
+                except SystemExit as e:
+                    bad.append((dest, text, "cli exited", str(e.code)[:60]))
+                    continue
+            finally:
+                cli.tsdate.date = saved
+            want = True if text is None else (typ[dest] or str)(text)
+            got = rec[0].get(API_NAME.get(dest, dest), "<absent>") if rec else "<no call>"
+            if not (got == want and type(got) is type(want)):
+                bad.append((dest, text, "api received", repr(got)))
+    return bool(bad), str(bad[:4])
+
+
 def replay(payload):
     """Through the real command line entry point on a temporary file."""
     import os
@@ -262,7 +315,7 @@ def replay(payload):
                     if not a.equals(b):
                         bad.append((flag, text, "output differs from preprocess_ts(%s=%s)" % (kw, val)))
             return bool(bad), str(bad)
-        return None, "flow counterexamples for `date` are replayed by reading the recorded call"
+        return _replay_date(payload, cli, inp, out)
     finally:
         import shutil
         shutil.rmtree(d, ignore_errors=True)
